@@ -274,10 +274,10 @@ def c08_jobs(tier):
         bx("stress-asan", "stress", "asan", 2, 1000000, 15 if q else 300, sanitizer=True, env=ASAN_ENV, crash_is_violation=True),
         bx("stress-miri", "stress", "miri", 6 if q else 16, 2 if q else 30, 120 if q else 3000, extra=["--small", "1"], sanitizer=True,
            miriflags=MIRI_SB + " -Zmiri-preemption-rate=0.05", timeout=500 if q else 4000),
-    ] + layout_jobs(tier, exhaust=True)
+    ] + layout_jobs(tier, exhaust=True, prop="C08")
 
 
-def layout_jobs(tier, exhaust=False, asan=False):
+def layout_jobs(tier, exhaust=False, asan=False, prop=None):
     # single threaded: item types of every alignment / with and without drop glue x columns x capacities; exhausted index space
     q = tier != "thorough"
     out = [
@@ -295,6 +295,10 @@ def layout_jobs(tier, exhaust=False, asan=False):
             bx("exhaust-miri", "exhaust", "miri", 1 if q else 8, 8 if q else 200, 300 if q else 2000, extra=["--quiet-panics", "1"], sanitizer=True, miriflags=MIRI_SB,
                timeout=900 if q else 4000),
         ]
+    if prop:
+        # the workload is shared by several checks: what it finds is filed under the check that runs it
+        for j in out:
+            j["args"] = j["args"] + ["--as-prop", prop]
     return out
 
 
@@ -354,7 +358,7 @@ def c11_jobs(tier):
         wk("nucleo-chk", "random", "chk", 8, 1000000, 25 if q else 900, props="C11"),
         wk("nucleo-directed", "directed", "chk", 4, 1000000, 25 if q else 600, props="C11"),
         wk("nucleo-asan", "random", "asan", 4, 1000000, 20 if q else 600, props="C11", sanitizer=True, env=ASAN_ENV),
-    ] + layout_jobs(tier, asan=True, exhaust=True)
+    ] + layout_jobs(tier, asan=True, exhaust=True, prop="C11")
 
 
 PROPS["C11"] = {
@@ -399,7 +403,7 @@ RULE_WORKER = ("scripted histories against a real Nucleo (threads 1/2/3/4/8/16, 
                "Every snapshot after every tick is checked. distinct_nontrivial = distinct histories")
 
 PROPS["C06"] = {
-    "jobs": lambda tier: worker_jobs("C06", with_asan=True)(tier) + layout_jobs(tier),
+    "jobs": lambda tier: worker_jobs("C06", with_asan=True)(tier) + layout_jobs(tier, prop="C06"),
     "replay": replay_generic("worker_mon", "random", "C06"),
     "evaluations": ["histories"],
     "rule": RULE_WORKER,
